@@ -19,10 +19,6 @@ REGIONS = {
     'empty-skips-checks':
         "a[empty idx] = vals and a[k:k] = vals / = misaligned packed operand return silently before the value is "
         "validated (NumPy: shape mismatch ValueError); a[[]] (empty Python list) raises IndexError",
-    'resize-view':
-        "resize on a slice view: the bits of the PARENT that follow the view inside the view's last byte are cleared "
-        "(also when the call then raises ValueError because a view cannot be resized); when the byte count does not "
-        "change the call succeeds (NumPy refuses to resize a view) and the view then extends over the parent's bits",
     'raw-stop-before-start':
         "_PackedBoolArray(data_buffer=…, start_index=s, stop_index=e) with e < s is accepted (negative size)",
 }
@@ -264,14 +260,17 @@ class H(object):
                 if ab >= root.abit and ab + n <= root.abit + root.n:
                     cands.append(d)
             if cands and root.own and v.root in self.objs:
-                d = rng.choice(cands)
+                near = [d for d in cands if d != 0 and abs(d) * 8 < n + 8]      # overlapping byte ranges
+                d = rng.choice(near) if near and rng.random() < 0.7 else rng.choice(cands)
                 lo = v.abit + 8 * d - root.abit
-                y = V('?', n, v.s, v.root, v.abit + 8 * d, False)
                 if self.slice_ok(root, lo, lo + n) is not True:
                     return
                 yn = self.fresh('y')
                 self.slice(yn, root, lo, lo + n)
-                self.emit('p.iop %s op=%s rhs=%s' % (v.name, rng.choice(['and', 'or', 'xor']), yn))
+                if rng.random() < 0.5:
+                    self.emit('p.iop %s op=%s rhs=%s' % (v.name, rng.choice(['and', 'or', 'xor']), yn))
+                else:
+                    self.emit('p.setslice %s rhs=%s' % (v.name, yn))
         self.emit('p.dump')
 
     def rand_bounds(self, v):
@@ -336,6 +335,8 @@ def random_history(rng, nmax, nops):
         if v.name not in h.objs:
             continue
         h.op(v)
+        if rng.random() < 0.25:
+            h.op(v, 'alias')
         if not v.own and rng.random() < 0.06:
             resize_view(h, rng, v)
         if rng.random() < 0.04:
@@ -348,26 +349,11 @@ def random_history(rng, nmax, nops):
 
 
 def resize_view(h, rng, v):
-    """resize of a slice view (NumPy and the class refuse unless the byte count is unchanged)"""
-    root = h.objs.get(v.root)
-    if root is None or v.name not in h.objs:
+    """resize of a slice view: refused (ValueError) by NumPy and by the class, the parent stays intact"""
+    if v.name not in h.objs:
         return
-    nbytes = v.bytes()[1] - v.bytes()[0]
-    newn = v.n + rng.choice([1, 2, 5, 9, 20])
-    nd = (newn + v.s + 7) // 8
-    if AVOID_KNOWN:
-        if nd == nbytes:
-            return                                             # resize-view: accepted
-        # resize-view: the parent's bits behind the view in its last byte are cleared; make that a no-op
-        end = v.abit + v.n
-        if end % 8 != 0:
-            lo = max(end, root.abit) - root.abit
-            hi = min((end + 7) // 8 * 8, root.abit + root.n) - root.abit
-            if lo < hi:
-                h.emit('p.setslice %s lo=%d hi=%d v=F' % (root.name, lo, hi))
+    newn = v.n + rng.choice([0, 1, 2, 5, 9, 20])
     h.emit('p.resize %s n=%d' % (v.name, newn))
-    if nd == nbytes:
-        v.n = newn                                             # still a view of the same bytes
     h.emit('p.dump')
     h.emit('p.len %s' % v.name)
 
